@@ -277,6 +277,17 @@ func aliasesOf(body ast.Node) map[string]string {
 					res[id.Name] = types.ExprString(x.Rhs[0])
 				}
 			}
+			// `x, cancel := context.WithTimeout(...)` / WithDeadline: whatever the local is called,
+			// it is the function's timeout context
+			if x.Tok == token.DEFINE && len(x.Lhs) == 2 && len(x.Rhs) == 1 {
+				if ce, ok := x.Rhs[0].(*ast.CallExpr); ok {
+					if fn := types.ExprString(ce.Fun); fn == "context.WithTimeout" || fn == "context.WithDeadline" {
+						if id, ok := x.Lhs[0].(*ast.Ident); ok && id.Name != "_" {
+							res[id.Name] = "timeoutCtx"
+						}
+					}
+				}
+			}
 		case *ast.IncDecStmt:
 			if id, ok := x.X.(*ast.Ident); ok {
 				writes[id.Name]++
@@ -1416,7 +1427,23 @@ func main() {
 	o.f("def skel_clientHandshake : List String := %s\n", leanStrList(skeleton(g, g.anyFunc("GoBackNConn", "clientHandshake"))))
 	o.f("def skel_start : List String := %s\n", leanStrList(skeleton(g, g.anyFunc("GoBackNConn", "start"))))
 	o.f("def skel_Send : List String := %s\n", leanStrList(skeleton(g, g.anyFunc("GoBackNConn", "Send"))))
-	o.f("def skel_Recv : List String := %s\n", leanStrList(skeleton(g, g.anyFunc("GoBackNConn", "Recv"))))
+	recvSkel := skeleton(g, g.anyFunc("GoBackNConn", "Recv"))
+	o.f("def skel_Recv : List String := %s\n", leanStrList(recvSkel))
+	// the three steps of Recv's reassembly in source order, whatever the locals are called and
+	// whichever way the final-chunk test is written: taking a packet from recvDataChan, appending
+	// to the reassembly buffer, testing FinalChunk
+	var recvOrder []string
+	for _, tok := range recvSkel {
+		switch {
+		case tok == "case:recv g.recvDataChan":
+			recvOrder = append(recvOrder, "recv")
+		case tok == "call:append":
+			recvOrder = append(recvOrder, "append")
+		case strings.HasPrefix(tok, "cond:") && strings.Contains(tok, ".FinalChunk"):
+			recvOrder = append(recvOrder, "final-test")
+		}
+	}
+	o.f("def order_Recv : List String := %s\n", leanStrList(recvOrder))
 	o.f("def typecases_resendReset_recvLoop : List String := %s\n", leanStrList(typeCasesOf(g,
 		g.anyFunc("GoBackNConn", "receivePacketsForever"), "g.resendTicker.Reset")))
 	o.f("def lock_tickerResetWithInterval : String := %s\n",
